@@ -33,6 +33,7 @@ type c13Job struct {
 }
 
 type c13Gate struct {
+	auto   bool // nothing is parked any more: stragglers (jobs the model did not expect) pass straight through
 	mu     sync.Mutex
 	jobs   []*c13Job
 	byID   map[string]*c13Job
@@ -95,12 +96,16 @@ func c13Tracer(e promhook.Event) {
 				j.ck = e.Key
 			case "start":
 				j.started, j.atStart = true, true
-				wait = j.startCh
+				if !g.auto {
+					wait = j.startCh
+				}
 			case "end-ok", "end-err":
 				j.ended = true
 			case "got":
 				j.atGot = true
-				wait = j.gotCh
+				if !g.auto {
+					wait = j.gotCh
+				}
 			}
 		}
 		g.mu.Unlock()
@@ -126,8 +131,11 @@ func (g *c13Gate) close(lockKey string) {
 	g.openAll()
 }
 
-// openAll releases everything still parked (fallback and end of query).
+// openAll releases everything still parked and lets later arrivals pass (fallback and end of the ordered release).
 func (g *c13Gate) openAll() {
+	g.mu.Lock()
+	g.auto = true
+	g.mu.Unlock()
 	for _, j := range g.snapshot() {
 		g.openStart(j)
 		g.openGot(j)
@@ -184,21 +192,23 @@ func (g *c13Gate) allParked() bool {
 // park waits until `expect` jobs exist and all of them sit at a gate. When the client asks for a different
 // number of slices than the model expects, a stable parked state is accepted instead.
 func (g *c13Gate) park(expect int, done <-chan struct{}) {
-	if g.waitFor(3*time.Second, func() bool { return len(g.jobs) == expect && g.allParked() }) {
-		return
-	}
 	last, since := -1, time.Now()
-	g.waitFor(3*time.Second, func() bool {
+	g.waitFor(5*time.Second, func() bool {
 		select {
 		case <-done:
 			return true
 		default:
 		}
-		if len(g.jobs) != last || !g.allParked() {
+		parked := g.allParked()
+		if len(g.jobs) == expect && parked {
+			return true
+		}
+		if len(g.jobs) != last || !parked {
 			last, since = len(g.jobs), time.Now()
 			return false
 		}
-		return len(g.jobs) > 0 && time.Since(since) > 50*time.Millisecond
+		// another slicing than the model's: accept what has been parked and stable for a while
+		return len(g.jobs) > 0 && time.Since(since) > 200*time.Millisecond
 	})
 }
 
